@@ -42,6 +42,8 @@ Proof.
   intros H. apply str_eqb_eq in H. unfold normalise_cmd. rewrite H. destruct k; reflexivity.
 Qed.
 
+Local Opaque del_f.
+
 (* a well-formed command line becomes exactly the action the documentation describes,
    provided its argument text splits back into its arguments *)
 Lemma cmd_action top c :
@@ -51,7 +53,7 @@ Lemma cmd_action top c :
   = CAdd (denote_cmd top c).
 Proof.
   unfold wf_cmd. rewrite !andb_true_iff, !negb_true_iff.
-  intros [[[[[[[[[[[[[Hsp Har] _] Hf] _] _] _] _] _] _] _] _] _] _] Hsplit.
+  intros [[[[[[[[[[[[Hsp Har] _] Hf] _] _] _] _] _] _] _] _] _] Hsplit.
   unfold mk_action. rewrite (normalise_kind _ _ Hsp), Hsplit.
   unfold denote_cmd. destruct c as [k args lay]. cbn [c_kind c_args] in *.
   destruct k; cbn [kind_sem arity_ok] in *; unfold process_cmd, add;
@@ -67,15 +69,18 @@ Proof.
         cbn [orb]; rewrite (del_f_id _ Hf); reflexivity).
   (* envSet family: exactly two arguments *)
   1-3: (apply Nat.eqb_eq in Har; destruct args as [|a0 [|a1 [|a2 r]]]; try discriminate Har;
-        cbn; cbn in Hf; rewrite (del_f_id [a0; a1]) by exact Hf; reflexivity).
+        cbn; rewrite (del_f_id [a0; a1]) by exact Hf; reflexivity).
   (* envUnset(PRODUCT_DIR) *)
   destruct args as [|a0 [|a1 r]]; try discriminate Har.
   apply str_eqb_eq in Har. subst a0.
   cbn [str_eqb k_envUnset k_prodDir k_setupEnv k_addAlias k_declareOptions k_envAppend k_envPrepend k_envSet
        k_unsetupOptional k_unsetupRequired k_setupOptional k_setupRequired lit
        String.list_ascii_of_string ascii_eqb Ascii.eqb Bool.eqb orb andb negb].
-  rewrite str_eqb_refl. cbn [del_f]. rewrite dir_env_not_f. reflexivity.
+  rewrite str_eqb_refl. rewrite del_f_id; [reflexivity|].
+  cbn [mem_str]. rewrite str_eqb_sym, dir_env_not_f. reflexivity.
 Qed.
+
+Local Transparent del_f.
 
 (* ---------------------------------------------------------------- the expected chains *)
 
@@ -124,25 +129,198 @@ Qed.
 Lemma nonnil_map {A B} (f : A -> B) l : is_nil l = false -> is_nil (map f l) = false.
 Proof. destruct l; auto. Qed.
 
+Lemma nonnil_body (l : list cmd) : is_nil l = false -> is_nil (denote_body top l) = false.
+Proof. destruct l; auto. Qed.
+
 Lemma is_nil_app_cons {A} (l : list A) x r : is_nil (l ++ x :: r) = false.
 Proof. destruct l; reflexivity. Qed.
 
-(* the else-if branches *)
-Lemma run_elifs elifs lg blk ch out :
-  is_nil blk = false ->
+(* the else-if branches: the branch whose block is open, and the chain so far *)
+Fixpoint elif_state (b : branch) (ch : lbb) (elifs : list branch) : branch * lbb :=
+  match elifs with
+  | [] => (b, ch)
+  | b' :: r => elif_state b' (ch ++ branch_elems top b) r
+  end.
+
+Lemma elif_state_chain b ch elifs :
+  snd (elif_state b ch elifs) ++ branch_elems top (fst (elif_state b ch elifs))
+  = ch ++ flat_map (branch_elems top) (b :: elifs).
+Proof.
+  revert b ch. induction elifs as [|b' r IH]; intros b ch.
+  - cbn. reflexivity.
+  - cbn [elif_state]. rewrite IH. cbn [flat_map]. now rewrite <- app_assoc.
+Qed.
+
+Lemma elif_state_nonempty b ch elifs :
+  is_nil (b_body b) = false ->
+  forallb (fun b => negb (is_nil (b_body b))) elifs = true ->
+  is_nil (b_body (fst (elif_state b ch elifs))) = false.
+Proof.
+  revert b ch. induction elifs as [|b' r IH]; intros b ch Hb Hall; [exact Hb|].
+  cbn [forallb] in Hall. apply andb_true_iff in Hall. destruct Hall as [H1 H2].
+  apply negb_true_iff in H1. cbn [elif_state]. now apply IH.
+Qed.
+
+Definition elif_kinds (elifs : list branch) : list linekind :=
+  flat_map (fun b => LElseIf (print_cond (b_cond b)) :: map cmd_kind_line (b_body b)) elifs.
+
+Lemma run_elifs elifs b ch out :
+  is_nil (b_body b) = false ->
   forallb wf_branch elifs = true ->
   forallb (fun b => negb (is_nil (b_body b))) elifs = true ->
-  exists lg' blk',
-    run_lines top
-      (flat_map (fun b => LElseIf (print_cond (b_cond b)) :: map cmd_kind_line (b_body b)) elifs)
-      (mkR lg blk [] ch out)
-    = Ok (mkR lg' blk' [] (removelast (ch ++ [LLog lg; LBlk blk] ++ flat_map (branch_elems top) elifs)
-                              |> fun l => removelast l) out)
-    /\ is_nil blk' = false
-    /\ ch ++ [LLog lg; LBlk blk] ++ flat_map (branch_elems top) elifs
-       = removelast (removelast (ch ++ [LLog lg; LBlk blk] ++ flat_map (branch_elems top) elifs))
-         ++ [LLog lg'; LBlk blk'].
+  run_lines top (elif_kinds elifs)
+    (mkR (print_cond (b_cond b)) (denote_body top (b_body b)) [] ch out)
+  = Ok (mkR (print_cond (b_cond (fst (elif_state b ch elifs))))
+            (denote_body top (b_body (fst (elif_state b ch elifs)))) []
+            (snd (elif_state b ch elifs)) out).
 Proof.
-Abort.
+  revert b ch. induction elifs as [|b' r IH]; intros b ch Hb Hwf Hne; [reflexivity|].
+  cbn [forallb] in Hwf, Hne.
+  apply andb_true_iff in Hwf. destruct Hwf as [Hw1 Hw2].
+  apply andb_true_iff in Hne. destruct Hne as [Hn1 Hn2]. apply negb_true_iff in Hn1.
+  unfold elif_kinds. cbn [flat_map]. fold (elif_kinds r).
+  cbn [app run_lines step]. unfold step_brace.
+  cbn [r_block r_logical r_ifblock r_chain r_out].
+  rewrite (nonnil_body _ Hb). cbn [bind].
+  rewrite run_lines_app.
+  unfold wf_branch in Hw1. rewrite !andb_true_iff in Hw1. destruct Hw1 as [[_ Hcm] _].
+  rewrite (run_cmds _ _ _ _ _ _ Hcm). cbn [bind app].
+  rewrite (IH b' _ Hn1 Hw2 Hn2). reflexivity.
+Qed.
+
+Lemma is_nil_flushU_out (U : list action) (O : list lbb) :
+  (if is_nil U then O else O ++ [[LLog s_true; LBlk U; LBlk []]]) = O ++ flushU U.
+Proof. destruct U; cbn; [now rewrite app_nil_r|reflexivity]. Qed.
+
+(* one whole chain, started between two items *)
+Lemma run_chain b0 elifs els cl U O :
+  wf_item (IChain b0 elifs els cl) = true ->
+  no_empty_branch_item (IChain b0 elifs els cl) = true ->
+  run_lines top (item_kinds (IChain b0 elifs els cl)) (mkR s_true U [] [] O)
+  = Ok (mkR s_true [] [] [] (O ++ flushU U ++ [chain_lbb top (b0 :: elifs) els])).
+Proof.
+  cbn [wf_item no_empty_branch_item forallb]. rewrite !andb_true_iff.
+  intros [[[Hb0 Hel] Hels] _] [[Hn0 Hnel] Hnels]. apply negb_true_iff in Hn0.
+  cbn [item_kinds]. fold (elif_kinds elifs).
+  (* the if line *)
+  cbn [run_lines step]. cbn [bind].
+  assert (E1 : step_brace (LIf (print_cond (b_cond b0))) (mkR s_true U [] [] O)
+               = mkR (print_cond (b_cond b0)) [] [] [] (O ++ flushU U)).
+  { unfold step_brace. cbn [r_block r_logical r_ifblock r_chain r_out is_nil app].
+    destruct U; cbn; [now rewrite app_nil_r|reflexivity]. }
+  rewrite E1. clear E1.
+  rewrite !run_lines_app.
+  unfold wf_branch in Hb0. rewrite !andb_true_iff in Hb0. destruct Hb0 as [[_ Hcm0] _].
+  rewrite (run_cmds _ _ _ _ _ _ Hcm0). cbn [bind app].
+  rewrite run_lines_app, (run_elifs elifs b0 [] _ Hn0 Hel Hnel). cbn [bind].
+  pose proof (elif_state_chain b0 [] elifs) as Hch.
+  pose proof (elif_state_nonempty b0 [] elifs Hn0 Hnel) as Hlast.
+  destruct (elif_state b0 [] elifs) as [bl ch]. cbn [fst snd] in *.
+  assert (Hnb : is_nil (denote_body top (b_body bl)) = false) by (apply nonnil_body; exact Hlast).
+  unfold chain_lbb. cbn [app] in Hch. rewrite <- Hch. clear Hch.
+  destruct els as [[eb el]|].
+  - apply andb_true_iff in Hels. destruct Hels as [Hecm _]. apply negb_true_iff in Hnels.
+    cbn [app run_lines step]. unfold step_brace at 1.
+    cbn [r_block r_logical r_ifblock r_chain r_out]. rewrite Hnb. cbn [bind].
+    rewrite run_lines_app, (run_cmds _ _ _ _ _ _ Hecm). cbn [bind app run_lines step].
+    unfold step_brace. cbn [r_block r_logical r_ifblock r_chain r_out].
+    rewrite (nonnil_body _ Hnels), Hnb. cbn [r_block r_logical r_ifblock r_chain r_out].
+    rewrite is_nil_app_cons. unfold branch_elems. rewrite <- !app_assoc. reflexivity.
+  - cbn [app run_lines step]. unfold step_brace.
+    cbn [r_block r_logical r_ifblock r_chain r_out is_nil]. rewrite Hnb.
+    cbn [r_block r_logical r_ifblock r_chain r_out is_nil].
+    rewrite is_nil_app_cons. unfold branch_elems. cbn [bind]. rewrite <- !app_assoc. reflexivity.
+Qed.
+
+(* the whole file *)
+Lemma run_items is U O :
+  wf_items is = true -> no_empty_branch is = true ->
+  bind (run_lines top (items_kinds is) (mkR s_true U [] [] O)) (fun st => Ok (finish st))
+  = Ok (O ++ compile top U is).
+Proof.
+  revert U O. induction is as [|i r IH]; intros U O Hwf Hne.
+  - cbn. destruct U; reflexivity.
+  - cbn [wf_items no_empty_branch forallb] in Hwf, Hne.
+    apply andb_true_iff in Hwf. destruct Hwf as [Hw1 Hw2].
+    apply andb_true_iff in Hne. destruct Hne as [Hn1 Hn2].
+    unfold items_kinds. cbn [flat_map]. fold (items_kinds r). rewrite run_lines_app.
+    destruct i as [c|b0 elifs els cl].
+    + cbn [item_kinds run_lines]. unfold cmd_kind_line. cbn [step].
+      cbn [wf_item] in Hw1. rewrite (cmd_action top c Hw1 (Hargs c Hw1)).
+      cbn [step_cmd bind r_logical r_block r_ifblock r_chain r_out].
+      rewrite (IH _ _ Hw2 Hn2). reflexivity.
+    + rewrite (run_chain b0 elifs els cl U O Hw1 Hn1). cbn [bind].
+      rewrite (IH _ _ Hw2 Hn2). cbn [compile]. rewrite <- !app_assoc. reflexivity.
+Qed.
+
+Lemma read_blocks_items is :
+  wf_items is = true -> no_empty_branch is = true ->
+  read_blocks top (items_kinds is) = Ok (compile top [] is).
+Proof. intros Hwf Hne. unfold read_blocks, r_init. apply (run_items is [] [] Hwf Hne). Qed.
 
 End LevelB.
+
+(* ---------------------------------------------------------------- Table.actions *)
+
+Section Select.
+Variable top : str.
+Variable e : cenv.
+Hypothesis Hcond : forall c, wf_cond c = true -> eval_cond true e (print_cond c) = Ok (denote e c).
+
+Lemma eval_true : eval_cond true e s_true = Ok true.
+Proof. vm_compute. reflexivity. Qed.
+
+Lemma sel_chain_branches b bs els :
+  forallb wf_branch (b :: bs) = true ->
+  sel_chain true e (chain_lbb top (b :: bs) els) = Ok (pick_branch e top (b :: bs) els).
+Proof.
+  revert b. induction bs as [|b' r IH]; intros b Hwf.
+  - cbn [forallb] in Hwf. rewrite andb_true_r in Hwf.
+    unfold wf_branch in Hwf. rewrite !andb_true_iff in Hwf. destruct Hwf as [[Hc _] _].
+    unfold chain_lbb. cbn [flat_map branch_elems app sel_chain].
+    rewrite (Hcond _ Hc). cbn [bind pick_branch].
+    destruct (denote e (b_cond b)); [reflexivity|]. destruct els as [[eb el]|]; reflexivity.
+  - cbn [forallb] in Hwf. apply andb_true_iff in Hwf. destruct Hwf as [Hb Hr].
+    unfold wf_branch in Hb. rewrite !andb_true_iff in Hb. destruct Hb as [[Hc _] _].
+    specialize (IH b' Hr).
+    unfold chain_lbb in *. cbn [flat_map] in *. unfold branch_elems at 1. cbn [app sel_chain].
+    rewrite (Hcond _ Hc). cbn [bind]. cbn [pick_branch].
+    destruct (denote e (b_cond b)); [reflexivity|].
+    unfold branch_elems at 1. cbn [app]. unfold branch_elems at 1 in IH. cbn [app] in IH.
+    exact IH.
+Qed.
+
+Lemma select_app a b :
+  select true e (a ++ b)
+  = bind (select true e a) (fun x => bind (select true e b) (fun y => Ok (x ++ y))).
+Proof.
+  induction a as [|l r IH]; cbn [app select].
+  - cbn [bind]. destruct (select true e b); reflexivity.
+  - destruct (sel_chain true e l); cbn [bind]; [|reflexivity]. rewrite IH.
+    destruct (select true e r); cbn [bind]; [|reflexivity].
+    destruct (select true e b); cbn [bind]; [|reflexivity]. now rewrite app_assoc.
+Qed.
+
+Lemma select_flushU U : select true e (flushU U) = Ok U.
+Proof.
+  destruct U as [|a r]; [reflexivity|]. cbn [flushU select sel_chain].
+  rewrite eval_true. cbn [bind]. now rewrite app_nil_r.
+Qed.
+
+Lemma select_compile is U :
+  wf_items is = true ->
+  select true e (compile top U is) = Ok (U ++ denote_items e top is).
+Proof.
+  revert U. induction is as [|i r IH]; intros U Hwf.
+  - cbn [compile denote_items flat_map]. rewrite app_nil_r. apply select_flushU.
+  - cbn [wf_items forallb] in Hwf. apply andb_true_iff in Hwf. destruct Hwf as [Hi Hr].
+    destruct i as [c|b0 elifs els cl]; cbn [compile].
+    + rewrite (IH _ Hr). unfold denote_items. cbn [flat_map denote_item app]. now rewrite <- app_assoc.
+    + rewrite select_app, select_flushU. cbn [bind select].
+      cbn [wf_item] in Hi. rewrite !andb_true_iff in Hi. destruct Hi as [[[Hb0 Hel] _] _].
+      rewrite sel_chain_branches by (cbn [forallb]; now rewrite Hb0, Hel).
+      cbn [bind]. rewrite (IH _ Hr). cbn [bind app].
+      unfold denote_items. cbn [flat_map denote_item]. reflexivity.
+Qed.
+
+End Select.
